@@ -33,7 +33,7 @@ TYPES2 = ['A', 'B']
 TYPES2N = ['solv', 'poly']
 
 
-def base_spec(types=None, L=64):
+def base_spec(types=None, L=64, copolymer=False):
     types = types or TYPES2
     spec = {'types': list(types), 'kT': 1.0, 'domain': {'length': L, 'dr': 0.1},
             'density': {t: [0.2, 0.35, 0.15][i] for i, t in enumerate(types)},
@@ -42,6 +42,12 @@ def base_spec(types=None, L=64):
         key = build.pair_key(types, a, b)
         spec['pairs'][key] = {'closure': ['PY', False], 'potential': ['HS', {}],
                               'omega': (['Gaussian', {'sigma': 1.0, 'length': 6}] if (a == b == types[0]) else (['SingleSite', {}] if a == b else ['NoIntra', {}]))}
+    if copolymer and len(types) >= 2:
+        # (E2, three types) the first two types are the blocks of one chain: non-zero cross omega next to a third species
+        t0, t1 = types[0], types[1]
+        spec['pairs'][build.pair_key(types, t0, t0)]['omega'] = ['GaussBlockDiag', {'block': 3, 'sigma': 1.0}]
+        spec['pairs'][build.pair_key(types, t0, t1)]['omega'] = ['GaussBlockCross', {'Na': 3, 'Nb': 4, 'sigma': 1.0}]
+        spec['pairs'][build.pair_key(types, t1, t1)]['omega'] = ['GaussBlockDiag', {'block': 4, 'sigma': 1.0}]
     return spec
 
 
@@ -396,10 +402,10 @@ def spec_key(spec):
 
 
 def bfs_shard(rec, types, first, depth, with_solve):
-    spec = base_spec(types)
+    spec = base_spec(types, copolymer=(len(types) == 3))
     s = fresh_system(spec)
     case = {'kind': 'hist', 'types': types}
-    ops = edit_ops(types)
+    ops = [o for o in edit_ops(types) if not (len(types) == 3 and o[0].startswith('domain'))]
     hist = []
     for op in first:
         spec = apply_edit(s, spec, op)
@@ -441,7 +447,7 @@ def bfs_shard(rec, types, first, depth, with_solve):
 def case_hist(rec, c):
     """One explicit history (edits and create/solve calls) from a fresh System; every call is checked."""
     types = c['types']
-    spec = base_spec(types)
+    spec = base_spec(types, copolymer=(len(types) == 3))
     s = fresh_system(spec)
     case = {'kind': 'hist', 'types': types}
     rec.state()
@@ -523,6 +529,12 @@ def run(rec, tier, seed):
     items.append(('bfs', TYPES2N, [], 0, True))
     for op in edit_ops(TYPES2N):
         items.append(('bfs', TYPES2N, [op], bdepth - 1, True))
+    # three types, the first two being the blocks of one chain (non-zero cross omega next to a third species)
+    items.append(('bfs', T3, [], 0, True))
+    for op in edit_ops(T3):
+        if op[0].startswith('domain'):
+            continue          # the block omegas are tabulated on the k grid: changing the grid invalidates them by design (C12)
+        items.append(('bfs', T3, [op], 1 if quick else 2, True))
     # all sequences (edits and calls) without deduplication
     sdepth = 2 if quick else 3
     allops = ops + CALL_OPS
